@@ -229,7 +229,7 @@ def gen_construct():
         ft = dict(reset=[], header=[], builder=[], feed=[], all=[])
     t = HEADER
     t += "/-! tables of the construction model (C06): CPython facts and literals/field sets read from the live bs4 -/\n"
-    t += "namespace BS.Gen\n"
+    t += "namespace BS.Gen.C06\n"
     t += chunked_def("cp1252Decode", "Option Nat", cp)
     t += f"/-- sys.get_int_max_str_digits(); 0 = no limit -/\ndef intMaxStrDigitsC06 : Nat := {lim}\n"
     t += f"def maxUnicode : Nat := {sys.maxunicode}\n"
@@ -249,8 +249,75 @@ def gen_construct():
     t += f"def attemptBuilderAssigns : List String := {lean_string_list(ft['builder'])}\n"
     t += f"def feedTouches : List String := {lean_string_list(ft['feed'])}\n"
     t += f"def allFields : List String := {lean_string_list(ft['all'])}\n"
-    t += "end BS.Gen\n"
+    t += "end BS.Gen.C06\n"
     yield "ConstructTab.lean", t
 
 
-ALL = [gen_construct]
+# The trusted residue: for each primitive of the call path, the exact exception classes it has been observed to raise
+# (CPython 3.12 codecs / int / chr / html.parser; everything else on the path has never been seen to raise). The harness
+# records the classes actually raised on every run and reports any class outside these lists with the input.
+RECORDED = {
+    "warn": [], "cands": [], "logWarning": [], "declaredProp": [], "resetAll": [], "newParser": [], "callbacks": [],
+    # codecs.lookup: unknown name; embedded NUL; lone surrogate in the name
+    "lookup": ["lookupError", "valueError", "unicodeEncodeError"],
+    # str(bytes, codec, errors): unknown / non-text codec; NUL or surrogate in the name; undecodable bytes; codecs that raise
+    # plain UnicodeError (undefined, punycode, idna with errors=replace)
+    "decode": ["lookupError", "valueError", "unicodeEncodeError", "unicodeDecodeError", "unicodeError"],
+    # html.parser / _markupbase give up with AssertionError; html.unescape hits int()'s digit limit with ValueError
+    "tokenizer": ["assertionError", "valueError"],
+    "intOf": ["valueError"],
+    "dec1": ["unicodeDecodeError", "unicodeError"],
+    "chrOf": ["valueError", "overflowError"],
+}
+
+
+def gen_envelope():
+    """Gen/C06Exc.lean: the live class hierarchy, the recorded kinds and the primitive-level injection matrix of the live code"""
+    sys.path.insert(0, str(__import__("pathlib").Path(__file__).resolve().parent.parent))
+    import logging
+    logging.disable(logging.CRITICAL)
+    from harness import c06_envelope as E
+    table = E.class_table()
+    t = HEADER + "import BSModel.Model.Envelope\nnamespace BS.Gen.C06\nopen BS.Construct\n"
+    rows = []
+    for name, cls in table.items():
+        mro = []
+        for m in cls.__mro__:
+            if m is object:
+                continue
+            ln = E.lean_name(m, table)
+            mro.append(ln if ln is not None else "(.other 9999)")   # a base class the model does not know: mro_table fails
+        rows.append(f"(.{name}, [{', '.join(mro)}])")
+    t += "/-- `cls.__mro__` (without `object`) of the live classes -/\n"
+    t += chunked_def("excMro", "Err × List Err", rows, 8)
+    fields = ["warn", "cands", "lookup", "decode", "logWarning", "declaredProp", "resetAll", "newParser", "tokenizer", "intOf", "dec1",
+              "chrOf", "callbacks"]
+    t += "/-- the recorded kinds (translate/parts_c06.py RECORDED) -/\n"
+    t += "def recorded : Recorded :=\n  { " + ",\n    ".join(
+        f"{f} := [{', '.join('.' + c for c in RECORDED[f])}]" for f in fields) + " }\n"
+    by_proto = {E.proto_name(c): E.lean_name(c, table) for c in list(table.values()) + [E.HarnessError, E.HarnessBaseError]}
+    inj = []
+    try:
+        hooked = E.hooked_points()
+    except Exception:
+        hooked = []
+    t += "/-- the primitives the harness can hook in this working tree (all of them unless an import style changed) -/\n"
+    t += f"def hookedPoints : List Point := [{', '.join('.' + p for p in hooked)}]\n"
+    try:
+        matrix = E.injection_matrix(points=hooked)
+    except Exception as e:  # the live code cannot be instrumented at some point: empty table, injection_table_complete fails
+        sys.stderr.write("parts_c06: injection matrix failed: %r\n" % (e,))
+        matrix = []
+    for pt, cls, v in matrix:
+        if v.startswith("escapes "):
+            vt = "(.escapes %s)" % by_proto.get(v.split(" ", 1)[1], "(.other 9998)")
+        else:
+            vt = "." + v
+        inj.append(f"(.{pt}, {E.lean_name(cls, table)}, {vt})")
+    t += "/-- every call of the primitive raises the class -> what the caller of the live constructor sees -/\n"
+    t += chunked_def("injections", "Point × Err × Verdict", inj, 16)
+    t += "end BS.Gen.C06\n"
+    yield "C06Exc.lean", t
+
+
+ALL = [gen_construct, gen_envelope]
